@@ -23,8 +23,12 @@ THEOREMS = [
     "restrict_never_orphans",
     "cascade_terminates",
     "cascade_exact",
+    "cascade_exact_of_success",
     "cascade_exact_B",
+    "delete_A_errors",
     "delete_outcomes",
+    "refusal_has_reason",
+    "child_create_backrefs_exact",
     "referrer_lookup_exact",
     "spec_closure_exact",
     "spec_agrees_on_success",
@@ -32,11 +36,15 @@ THEOREMS = [
 
 RULE = ("scripted families (every id of the hostile pool — quotes, backslashes, backslash-n, filter keywords, "
         "filter fragments such as `x\" or id != \"`, NUL / non-UTF-8 bytes, a 300-byte id — as the deleted target, "
-        "unreferenced / referenced through owner, dep, boss chains, under all 8 schema variants) plus seeded random "
-        "histories of 6-31 transactions (1-3 operations each: create B, create A, update A with a random field "
-        "checker incl. re-parenting / null-out / empty string, delete A, delete B) over 3-7 A ids and 2-3 B ids "
-        "drawn from the pool; after every transaction the canonicalised boltz.Traverse dump, the surviving ids, the "
-        "stored fk values, GetRelatedEntitiesIdList of every back-reference field and the error enum are compared. "
+        "unreferenced / referenced through owner, dep, boss chains, promoted through the child store with unchanged / "
+        "changed / cleared references, deleted with child data, the same id in both stores; under all 8 schema variants) "
+        "plus seeded random histories of 6-31 transactions (1-3 operations each: create B, create A, create through the "
+        "child store (fresh id / over an existing plain parent with equal, changed or cleared fk values / over existing "
+        "child data), update A and update through the child store with a random field checker incl. re-parenting / "
+        "null-out / empty string, delete A directly or through the child store, delete B) over 3-9 A ids and 2-3 B ids "
+        "drawn from the pool (in half of the histories one id names an entity in both stores); after every transaction "
+        "the canonicalised boltz.Traverse dump, the surviving ids, the stored fk values, GetRelatedEntitiesIdList of "
+        "every back-reference field, the child store's view of every entity and the error enum are compared. "
         "non-trivial = the history contains a refused delete (refexists), a cascading delete that removed >= 2 "
         "entities, or a rejected write (notfound / null-not-allowed); distinct = (variant, sequence of results and "
         "coarse digests)")
@@ -66,6 +74,16 @@ def pretty_op(op):
             m = int(f[2])
             flds = ["owner", "boss", "dep"] if m >= 8 else [n for b, n in ((1, "owner"), (2, "boss"), (4, "dep")) if m & b]
             return {"updateA": _unhex(f[1]), "fields": flds, "owner": _fv(f[3]), "boss": _unhex(f[4]), "dep": _fv(f[5])}
+        if f[0] == "cc":
+            return {"createThroughChildStore": _unhex(f[1]), "owner": _fv(f[2]), "boss": _unhex(f[3]), "dep": _fv(f[4]),
+                    "tag": _fv(f[5])}
+        if f[0] == "uc":
+            m = int(f[2])
+            flds = ["owner", "boss", "dep", "tag"] if m & 8 else [n for b, n in ((1, "owner"), (2, "boss"), (4, "dep"), (16, "tag")) if m & b]
+            return {"updateThroughChildStore": _unhex(f[1]), "fields": flds, "owner": _fv(f[3]), "boss": _unhex(f[4]),
+                    "dep": _fv(f[5]), "tag": _fv(f[6])}
+        if f[0] == "dc":
+            return {"deleteThroughChildStore": _unhex(f[1])}
         if f[0] == "da":
             return {"deleteA": _unhex(f[1])}
         if f[0] == "db":
@@ -112,8 +130,98 @@ def nontrivial(case, impl):
     return (f[1], tuple(t.split("#")[0] + t.split("#")[-1] for t in (impl or "").split(" ")))
 
 
-def cascades(case, impl):
-    pass
+def _ev(w):
+    """wire fk value -> the value the indexes see (nil and empty are both "no reference")"""
+    return "" if w in ("~", "-") else w
+
+
+def situation_stats(case, impl, stats):
+    """Replays the committed transactions of one history on a small table (ids and fk values as wire strings) to count
+    which situations the generated histories actually reached (evidence only; verdicts never depend on it)."""
+    f = case.split(" ")
+    try:
+        variant = int(f[1])
+    except (IndexError, ValueError):
+        return
+    A, B = {}, set()
+
+    def bump(k):
+        stats[k] = stats.get(k, 0) + 1
+
+    def closure(seeds):
+        gone = set(seeds)
+        grew = True
+        while grew:
+            grew = False
+            for k, e in A.items():
+                if k not in gone and e["boss"] in gone:
+                    gone.add(k)
+                    grew = True
+        return gone
+
+    for tx, tok in zip([t for t in f[2:] if t], (impl or "").split(" ")):
+        if not tok.startswith("ok#"):
+            continue
+        for op in tx.split(","):
+            g = op.split(":")
+            k = g[0]
+            if k == "cb":
+                B.add(g[1])
+            elif k == "ca":
+                A[g[1]] = {"owner": _ev(g[2]), "boss": g[3], "dep": _ev(g[4]), "ext": False}
+            elif k == "cc":
+                cur = A.get(g[1])
+                new = {"owner": _ev(g[2]), "boss": g[3], "dep": _ev(g[4]), "ext": True}
+                if cur is None:
+                    bump("child create, fresh id")
+                else:
+                    same = [cur[x] == new[x] for x in ("owner", "boss", "dep")]
+                    cleared = any(cur[x] != "" and new[x] == "" for x in ("owner", "dep"))
+                    bump("child create over existing parent, " + ("every fk value unchanged" if all(same) else
+                         "a reference cleared" if cleared else "a reference changed"))
+                    if all(same) and (cur["owner"] or cur["dep"]):
+                        bump("child create over existing parent, unchanged non-null owner/dep (seeded C04-4)")
+                A[g[1]] = new
+            elif k in ("ua", "uc"):
+                cur = A.get(g[1])
+                if cur is None:
+                    continue
+                m = int(g[2])
+                allf = m >= 8 if k == "ua" else bool(m & 8)
+                if cur["ext"]:
+                    bump("update of an entity with child data through " + ("A (handed to the child store)" if k == "ua" else "the child store"))
+                if allf or m & 1:
+                    cur["owner"] = _ev(g[3])
+                if allf or m & 2:
+                    cur["boss"] = g[4]
+                if allf or m & 4:
+                    cur["dep"] = _ev(g[5])
+            elif k in ("da", "dc"):
+                if g[1] in A:
+                    gone = closure([g[1]])
+                    if A[g[1]]["ext"]:
+                        bump("delete of an entity with child data (two ProcessBeforeDelete rounds)" +
+                             (", with referrers" if len(gone) > 1 else ""))
+                    if A[g[1]]["ext"] and A[g[1]]["boss"] != g[1] and A[g[1]]["boss"] in gone:
+                        bump("delete of an entity with child data whose boss refers back to it (repaired by 001d2d2)")
+                    if any(A[x]["ext"] for x in gone if x != g[1]):
+                        bump("cascade into an entity with child data")
+                    for x in gone:
+                        del A[x]
+            elif k == "db":
+                refs = [x for x, e in A.items() if e["dep"] == g[1]]
+                if refs and variant & 1:
+                    bump("cascade between the two stores (B delete removes dep referrers)")
+                    if g[1] in refs:
+                        bump("cascade between the two stores, a referrer's id equals the deleted B id (seeded C04-5)")
+                    gone = closure(refs)
+                    if any(A[x]["ext"] and A[x]["boss"] != x and A[x]["boss"] in gone for x in refs):
+                        bump("B delete cascading into an entity with child data whose boss refers back to it (repaired by 001d2d2)")
+                    for x in gone:
+                        del A[x]
+                B.discard(g[1])
+        if any(e["owner"] and e["owner"] == x for x, e in A.items()) or any(e["dep"] and e["dep"] == x for x, e in A.items()):
+            bump("state with an A entity referring to the B entity of the same id")
 
 
 def describe(case, impl, model, spec):
@@ -123,8 +231,10 @@ def describe(case, impl, model, spec):
 
 # ------------------------------------------------------------------------------ known findings
 
-# none registered.  (History: the cascade-cycle stack overflow was registered as `cascade_cycle_diverges`
-# until /repo commit bda5470 repaired it; the harness still reports a non-returning delete as "diverge".)
+# none registered.  (History: the cascade-cycle stack overflow was registered as `cascade_cycle_diverges` until /repo
+# commit bda5470 repaired it — the harness still reports a non-returning delete as "diverge"; the not-found failure of
+# a delete of an entity with child-store data on a reference cycle was registered as `ext_cycle_delete_notfound` until
+# /repo commit 001d2d2 repaired it.)
 MATCHERS = {}
 
 
@@ -142,12 +252,12 @@ def _listed():
     return {name for name, _ in common.load_known("C04")}
 
 
-def _fails(kind, a, m, s):
+def _fails(kind, a, m, s, case=None):
     if kind == "spec":
         if blank_fine(a) == s:
             return False
         info = {"impl": a, "model": m, "spec": s}
-        return not any(fn(None, info) for name, fn in MATCHERS.items() if name in _listed())
+        return not any(fn(case, info) for name, fn in MATCHERS.items() if name in _listed())
     return a != m
 
 
@@ -156,13 +266,13 @@ def shrink(ctx, case, kind):
     f = case.split(" ")
     head, txs = f[:2], [t for t in f[2:] if t]
     r = _run(ctx, [case])
-    if r is None or not _fails(kind, r[0][0], r[1][0], r[2][0]):
+    if r is None or not _fails(kind, r[0][0], r[1][0], r[2][0], case):
         return case
     d = first_diff(blank_fine(r[0][0]), r[2][0]) if kind == "spec" else first_diff(r[0][0], r[1][0])
     if d is not None and d[0] + 1 < len(txs):
         cut = txs[:d[0] + 1]
         rc = _run(ctx, [" ".join(head + cut)])
-        if rc is not None and _fails(kind, rc[0][0], rc[1][0], rc[2][0]):
+        if rc is not None and _fails(kind, rc[0][0], rc[1][0], rc[2][0], " ".join(head + cut)):
             txs = cut
     for _ in range(60):
         cands = []
@@ -181,7 +291,7 @@ def shrink(ctx, case, kind):
             break
         nxt = None
         for i, c in enumerate(cands):
-            if _fails(kind, r[0][i], r[1][i], r[2][i]):
+            if _fails(kind, r[0][i], r[1][i], r[2][i], lines[i]):
                 nxt = c
                 break
         if nxt is None:
@@ -215,6 +325,8 @@ def run(ctx, replay_cases=None):
         "the still-existing, still-matching rows in key order (modelled as the sorted initial candidate list filtered "
         "at its turn; exercised by the correspondence)",
         "the three structural buckets u, u/things, u/owners are not compared (they appear with the first create)",
+        "the ChildStoreUpdateHandler registered on store A by the harness hands an update of an entity with child data "
+        "to the child store with the new parent values and the stored tag (user code of the wiring, not of /repo)",
         "a DeleteById that exceeds 4000 MutateContext.Tx() calls is cut off by the harness with a recoverable panic and "
         "reported as `diverge` (the model proves this never happens: cascade_terminates); without the cut-off the code "
         "before bda5470 ended in Go's fatal stack overflow (C04_NOGUARD=1 reproduces it on a reverted tree)",
@@ -259,8 +371,13 @@ def run(ctx, replay_cases=None):
     spec_bad, corr_bad, keys = [], [], set()
     hist_ops, hist_res, ntx = {}, {}, 0
     removed_hist = {}
+    situations = {}
     for i in range(n):
         c, a, m, s = lines[i], impl[i], model[i], spec[i]
+        try:
+            situation_stats(c, a, situations)
+        except (IndexError, ValueError, KeyError):
+            pass
         k = nontrivial(c, a)
         if k is not None:
             keys.add(k)
@@ -270,7 +387,7 @@ def run(ctx, replay_cases=None):
         for tx, tok in zip(txs, (a or "").split(" ")):
             mcnt = re.search(r"@(\d+),(\d+)$", tok)
             cur = (int(mcnt.group(1)), int(mcnt.group(2))) if mcnt else prev
-            if tok.startswith("ok#") and len(tx.split(",")) == 1 and tx[:2] in ("da", "db"):
+            if tok.startswith("ok#") and len(tx.split(",")) == 1 and tx[:2] in ("da", "db", "dc"):
                 gone = (prev[0] - cur[0]) + (prev[1] - cur[1])
                 key = f"{tx[:2]} removed {gone if gone < 6 else '6+'}"
                 removed_hist[key] = removed_hist.get(key, 0) + 1
@@ -304,6 +421,7 @@ def run(ctx, replay_cases=None):
         "impl_vs_model_disagreements": len(corr_bad),
         "input_distribution": {"operations": hist_ops, "operation_results": hist_res,
                                "entities_removed_by_successful_single_delete": removed_hist,
+                               "situations_reached": situations,
                                "schema_variants": {str(v): sum(1 for l in lines if l.split(" ")[1:2] == [str(v)]) for v in range(8)}},
     })
     ctx.obligation("correspondence: implementation output = model output on every generated history "
@@ -328,7 +446,7 @@ def run(ctx, replay_cases=None):
         r = _run(ctx, [small])
         if r is not None:
             a, m, s = r[0][0], r[1][0], r[2][0]
-        if _fails("spec", a, m, s):
+        if _fails("spec", a, m, s, small):
             # the shrunk history also violates the spec (it was masked by a known finding earlier in the original)
             common.violation(ctx, "property-fails-on-input", small,
                              dict(verbose_detail(ctx, small, a, m, s), disagreements=len(corr_bad), original_case=c))
